@@ -1,7 +1,7 @@
 (* C05 — records stay in normal form: formal attributes single-valued, typed,
    normalised.  Statements only; proofs in theories/RecordProofs.v. *)
 From Coq Require Import String List ZArith.
-From Prov Require Import Str Sexp Tables Nsm NsmProofs Values Record RecordProofs IsoProofs TimeProofs IdemProofs.
+From Prov Require Import Str Sexp Tables Nsm NsmProofs Values Record RecordProofs IsoProofs TimeProofs IdemProofs World Interp InterpProofs ReaddProofs GoodProofs.
 Import ListNotations.
 Open Scope string_scope.
 
@@ -134,6 +134,16 @@ Example C05_stored_examples :
   stored [] (VLit "hi" (Some (prov_qn "InternationalizedString")) (Some "en")) /\
   ~ stored [] (VLit "5" (Some (xsd_qn "int")) None).
 Proof. exact stored_examples. Qed.
+
+(* world level: in every world the interpreter can reach — records arriving through every path: new_record, the
+   factories, element methods, add_attributes, set_time, add_asserted_type, add_record, update, add_bundle,
+   flattened, unified, graph and PROV-JSON round trips — every attribute value of every record is in the stored form
+   normalisation produces and of the kind its attribute demands (a qualified name under a reference attribute, a
+   datetime under a time attribute) *)
+Theorem C05_reachable_records_normalised : forall ft ops r p,
+  get_rec (wrun ft ops) r = Some p -> good_rec (wft (wrun ft ops)) p.
+Proof. exact reachable_record_good. Qed.
+Print Assumptions C05_reachable_records_normalised.
 
 (* non-vacuity: a normal record with a formal value; the hypotheses of the refusal
    theorem are met and it computes to a refusal *)
